@@ -975,6 +975,7 @@ if NUMPY_VERSION >= Version("2.1.0.dev0"):
 
 @implements(np.pad)
 def pad(array, *args, **kwargs):
+    _validate_side_values(array, kwargs, ("constant_values", "end_values"))
     return np.pad._implementation(np.asarray(array), *args, **kwargs) * array.units
 
 
